@@ -19,6 +19,13 @@ STRESS = [
     "class Foo; multiclass M { def _x; } def anonymous_1 : Foo; defm : M; def : Foo { int n = 1; } def user { Foo f = anonymous_1; list<Foo> l = [anonymous_1, anonymous_0]; }",
     "class Reg; multiclass MC { def _lo : Reg; } defm D : MC; class Use<int n, Reg r = D_lo>; def X : Use<1, D_lo> { Reg q = D_lo; }",
     "def { int w = 1; } def { int w = 2; } defvar a = anonymous_0; defvar b = anonymous_1.w; def anonymous_0; defvar c = anonymous_0;",
+    # a construct that opens a scope around something the indexer cannot type, inside a class, followed by declarations that
+    # derive from / refer to that class and by names that resolve nowhere (a scope that outlives its construct turns the later
+    # parent lists into parents of the wrong record)
+    "class Base { list<int> odd = !filter(x, [1,2,3], x{0}); } class Derived : Base; multiclass MC { def _a; } defm Inst : MC, Derived; class K; def k : K; def Y { K ref = k; int z = nowhere; }",
+    "class Base<list<int> l> { list<int> sel = !filter(x, l, limit); } class Derived : Base<[1]>; defm D : Derived; defvar v = w; multiclass M : Derived { def a; } def z { int a = b; }",
+    "class Base<list<int> l = !foreach(x, [1,2], x{0})> { int t = !foldl(0, l, a, b, b.nofield); } class Derived : Base; multiclass M : Derived { def a; } defm q : M, Derived; def z { int a = b; Derived d = q_a; }",
+    "class P { int v = !cond(nosuch: 1, true: 2); list<int> w = !foreach(e, [1], !filter(f, [e], f{0})); } class Q : P; foreach i = [1] in { defm r#i : Q; } multiclass S : Q; defm t : S, Q, P; def u : Q { int x = y; }",
     # redefinitions and shadowing
     "class A; class A; class A { int a; } def A; def A : A; defvar A = 1; multiclass A { def A; } defm A : A;",
     "class R<int a, int a> { int a = a; let a = a; } def r : R<1, 2> { let a = a; int a = 3; }",
